@@ -66,6 +66,13 @@ def expected_dim(w, u, _depth=0):
     return tuple(acc)
 
 
+def safe_ustr(w, u):
+    try:
+        return w.ustr(u)
+    except Exception as e:  # noqa
+        return f"<unit without usable state: {type(e).__name__}: {e}>"
+
+
 def table_violations(w, extra=()):
     """The invariant I(world): every interned unit (and every unit in `extra`)."""
     bad = []
@@ -74,10 +81,16 @@ def table_violations(w, extra=()):
         if id(u) in seen:
             continue
         seen.add(id(u))
-        exp = expected_dim(w, u)
-        got = tuple(u.dimension.exponents)
+        try:
+            exp = expected_dim(w, u)
+            got = tuple(u.dimension.exponents)
+            name = w.ustr(u)
+        except Exception as e:  # noqa
+            # an interned unit that cannot even report its factors or dimension (half-built)
+            bad.append((f"<interned unit without usable state: {type(e).__name__}: {e}>", (), ()))
+            continue
         if exp != got:
-            bad.append((w.ustr(u), got, exp))
+            bad.append((name, got, exp))
     return bad
 
 
@@ -450,7 +463,7 @@ for item in data:
         oc = type(e).__name__; extra = []
     bad = c01.table_violations(w, extra)
     out.append({'oc': oc, 'bad': [[n, list(g), list(x)] for n, g, x in bad[:2]],
-                'got': w.ustr(extra[0]) if extra else None})
+                'got': c01.safe_ustr(w, extra[0]) if extra else None})
 print(json.dumps(out))
 """
 
